@@ -47,6 +47,23 @@ impl Val for usize {
         self as u64
     }
 }
+/// 496-byte values: 512-byte pairs with 128-bit signatures, so that a few
+/// million pairs make a bucket file larger than 2 GiB.
+impl Val for [u64; 62] {
+    fn from64(v: u64) -> Self {
+        let mut a = [v; 62];
+        a[61] = !v;
+        a
+    }
+    fn to64(self) -> u64 {
+        if self[1..61].iter().all(|x| *x == self[0]) && self[61] == !self[0] {
+            self[0]
+        } else {
+            // a torn value: map to something no pushed pair carries
+            0xDEAD_BEEF_0BAD_F00D
+        }
+    }
+}
 impl Val for EmptyVal {
     fn from64(_: u64) -> Self {
         EmptyVal::default()
@@ -283,15 +300,36 @@ impl Property for C18 {
             Segment::random("big-stores", tier.pick(6_000, 60_000), &[1], 16, 300),
             // buckets above every buffer size the store could use: 2^10 pairs, 2^16 pairs, 1 MiB of 8/16/24/32-byte pairs
             Segment::enumerated("large-buckets", tier.pick(32, 256), &[2]),
+            // a single bucket file above 2 GiB (one read(2) call returns at most 0x7ffff000 bytes)
+            Segment::enumerated("bucket-file-above-2GiB", tier.pick(1, 3), &[3]),
         ]
     }
     fn rule(&self) -> &'static str {
-        "case = (signature type in {[u64;1],[u64;2]}, value type in {u8,u64,usize,EmptyVal}, online/offline, bucket bits 0..=8 (offline 0..=4), max shard bits 0..=10, requested shard bits 0..=max (fewer, equal, more than the bucket bits), a multiset of pairs whose high bits are uniform / all in one shard / in two adjacent shards / all ones / all zeros, with exact duplicates) decoded from bytes; oracle = a hash multiset of (home shard, sig, value) built from the pushed pairs; observed SigStore::len after every push, ShardStore::len, shard_sizes, two borrowed iterations and the consuming one: number of shards, each shard's length, home shard of every pair, multiset equality. Plus an enumerated segment of stores whose single buckets hold 32768..262145 pairs (around 2^15, 2^16, 2^17 pairs and 1 MiB of 8/16/24/32-byte pairs), online and offline, split, equal and aggregate. Non-trivial: at least 2 non-empty shards and shard bits != bucket bits; distinct = distinct hash of the decoded case."
+        "case = (signature type in {[u64;1],[u64;2]}, value type in {u8,u64,usize,EmptyVal}, online/offline, bucket bits 0..=8 (offline 0..=4), max shard bits 0..=10, requested shard bits 0..=max (fewer, equal, more than the bucket bits), a multiset of pairs whose high bits are uniform / all in one shard / in two adjacent shards / all ones / all zeros, with exact duplicates) decoded from bytes; oracle = a hash multiset of (home shard, sig, value) built from the pushed pairs; observed SigStore::len after every push, ShardStore::len, shard_sizes, two borrowed iterations and the consuming one: number of shards, each shard's length, home shard of every pair, multiset equality. Plus one to three offline stores with 512-byte pairs whose single bucket file exceeds 2 GiB (4.2 million pairs; needs about 2.2 GB of temporary disk and 5 GB of memory). Plus an enumerated segment of stores whose single buckets hold 32768..262145 pairs (around 2^15, 2^16, 2^17 pairs and 1 MiB of 8/16/24/32-byte pairs), online and offline, split, equal and aggregate. Non-trivial: at least 2 non-empty shards and shard bits != bucket bits; distinct = distinct hash of the decoded case."
     }
     fn run(&self, data: &[u8], cx: &mut Ctx) -> R {
         let (mode, rest) = data.split_first().unwrap_or((&0, &[]));
         let mut u = Unstructured::new(rest);
-        let c = if *mode == 2 {
+        let c = if *mode == 3 {
+            let mut b = [0u8; 8];
+            b[..rest.len().min(8)].copy_from_slice(&rest[..rest.len().min(8)]);
+            let j = u64::from_le_bytes(b);
+            cx.label("bucket>2GiB");
+            // 4.2 million pairs of 512 bytes: 2.15 GB in one bucket; j = 1: two buckets aggregated into one shard,
+            // everything in the first; j = 2: exactly at the 0x7ffff000-byte boundary plus one pair
+            let n = if j % 3 == 2 { 0x7fff_f000usize / 512 + 1 } else { 4_200_000 };
+            let bucket_bits = (j % 3 == 1) as u32;
+            let mut x = 0x9E37_79B9_7F4A_7C15u64 ^ j;
+            let pairs = (0..n as u64)
+                .map(|i| {
+                    x ^= x << 13;
+                    x ^= x >> 7;
+                    x ^= x << 17;
+                    (x >> bucket_bits, x.rotate_left(17), i)
+                })
+                .collect();
+            Case { sig_words: 2, val_kind: 4, offline: true, bucket_bits, max_shard_bits: bucket_bits, shard_bits: 0, pairs }
+        } else if *mode == 2 {
             let mut b = [0u8; 8];
             b[..rest.len().min(8)].copy_from_slice(&rest[..rest.len().min(8)]);
             large_bucket_case(u64::from_le_bytes(b))
@@ -319,6 +357,7 @@ impl Property for C18 {
             (1, 1) => run_sv::<[u64; 1], u64>(cx, &c),
             (1, 2) => run_sv::<[u64; 1], usize>(cx, &c),
             (1, _) => run_sv::<[u64; 1], EmptyVal>(cx, &c),
+            (_, 4) => run_sv::<[u64; 2], [u64; 62]>(cx, &c),
             (_, 0) => run_sv::<[u64; 2], u8>(cx, &c),
             (_, 1) => run_sv::<[u64; 2], u64>(cx, &c),
             (_, 2) => run_sv::<[u64; 2], usize>(cx, &c),
